@@ -101,7 +101,7 @@ def check_cases(b, cases, stages="as"):
     return disagreements, failures
 
 
-SEM_STATS = dict(cases=0, src_supported=0, sh_supported=0, both=0, in_theorem_fragment=0)
+SEM_STATS = dict(cases=0, src_supported=0, sh_supported=0, both=0, in_theorem_fragment=0, in_function_theorem_fragment=0)
 
 
 def sem_validate(b, runnable):
@@ -116,18 +116,32 @@ def sem_validate(b, runnable):
     for c, a in zip(runnable, answers):
         parts = a.split(" ")
         SEM_STATS["cases"] += 1
-        if parts[0] != "SEM" or len(parts) != 4:
-            dis.append((c, "SEM: " + a[:200], "SEM <src> <sh>"))
+        if parts[0] != "SEM" or len(parts) != 6:
+            dis.append((c, "SEM: " + a[:200], "SEM <src> <sh> <flag> <src1> <sh1>"))
             continue
-        src, sh = parts[1], parts[2]
+        src, sh, flag, src1, sh1 = parts[1:6]
         c.meta["sem"] = (src, sh)
-        if parts[3] == "F":
-            SEM_STATS["in_theorem_fragment"] += 1
-            if src != "U" and sh == "U":
-                dis.append((c, "SEM-THM: a program of the theorem's fragment runs in Sem/Src (" + src + ") but not in Sem/Bash", "U"))
         r = c.meta["run"]
         real = "%d:%s" % (r["status"], r["stdout"].hex())
         want = "%d:%s" % (c.meta["expected_status"], "".join(l + "\n" for l in c.meta["expected_out"]).encode().hex())
+        if flag in ("F2", "F12"):
+            # fragment of C02.bash_preserves_semantics_with_functions (models Sem2)
+            SEM_STATS["in_function_theorem_fragment"] += 1
+            if src != "U" and sh == "U":
+                dis.append((c, "SEM-THM: a program of the function theorem's fragment runs in Sem2/Src (" + src + ") but not in Sem2/Bash", "U"))
+        if flag in ("F1", "F12"):
+            # fragment of C01.bash_preserves_scalar_semantics (models Sem): the models the theorem is about
+            SEM_STATS["in_theorem_fragment"] += 1
+            if src1 != "U" and sh1 == "U":
+                dis.append((c, "SEM-THM: a program of the scalar theorem's fragment runs in Sem/Src (" + src1 + ") but not in Sem/Bash", "U"))
+            ok1 = src1 != "U" and not src1.startswith(("brk", "cont"))
+            ok2 = sh1 != "U" and not sh1.startswith(("brk", "cont"))
+            if ok2 and not r["timeout"] and r["stderr"] == b"" and sh1 != real:
+                dis.append((c, "SEM-SH: the scalar bash model Sem/Bash says " + sh1, "/bin/bash says " + real))
+            if ok1 and src1 != want and real == want:
+                dis.append((c, "SEM-SRC: the scalar source semantics Sem/Src says " + src1, "reference interpreter and /bin/bash say " + want))
+            if ok1 and ok2 and src1 != sh1:
+                dis.append((c, "SEM-THM: Sem/Src says " + src1, "Sem/Bash says " + sh1))
         ok_src = src != "U" and not src.startswith(("brk", "cont"))
         ok_sh = sh != "U" and not sh.startswith(("brk", "cont"))
         if ok_sh:
